@@ -1,7 +1,9 @@
 """C07 — bounded stand-in (runtime/h_report.py)."""
 ID = "C07"
 LEVEL = "exploration"
-FUNCTIONS = []
+FUNCTIONS = ['codelimit.common.Codebase:Codebase.add_file', 'codelimit.common.LanguageTotals:LanguageTotals.__init__',
+             'codelimit.common.LanguageTotals:LanguageTotals.add']
+BOUNDED_SKIP = list(FUNCTIONS)   # the harness below drives them through the real Codebase
 TRUSTED = ["json (stdlib)"]
 ASSUMPTIONS = []
 BOUND = 'path sets of 1..3 paths (depth <= 3 over two directory names, two file names, plus prefix-sharing names co/core, test/tests, src/main/app) in every insertion order, 60 random sets of 2..5 paths (thorough 600), random measurement lists of 0..3 functions with boundary lengths'
